@@ -106,7 +106,7 @@ func build(route string, c dpk.PRFCfg) (prf.PRF, error) {
 // bufs holds the driver-owned REUSED input buffers (one backing array per argument role): every call overwrites
 // them with its inputs and scribbles over them afterwards; logged inputs come from the pristine arguments, outputs
 // are copied after the scribble.
-var bufs = dpk.Arenas{}
+var bufs = dpk.NewArenas()
 
 // adv calls f with the input placed in the reused input buffer, then scribbles over that buffer.
 func adv(in []byte, f func(in []byte) ([]byte, error)) ([]byte, error) {
@@ -119,7 +119,7 @@ type prfCase struct {
 	route string
 	c     dpk.PRFCfg
 	p     prf.PRF
-	w     *vt.Writer
+	w     *dpk.Writer
 }
 
 func (c *prfCase) ev(name string) vt.Ev {
@@ -144,6 +144,30 @@ func (c *prfCase) compute(kind string, in []byte, n uint32) []byte {
 		return nil
 	}
 	return o1
+}
+
+// enclosed is the enclosing-buffer sequence: ComputePRF over rec[:n] - a prefix of a larger caller record, so the
+// slice has the rest of the record as spare capacity - and then over the whole record WITHOUT rewriting the buffer
+// in between. Each call is its own event, judged on the pristine content.
+func (c *prfCase) enclosed(rec []byte, n int, out uint32) {
+	one := func(kind string, in []byte, get func() []byte, after func()) {
+		var o []byte
+		var err error
+		p, pv := vt.Try(func() {
+			o, err = c.p.ComputePRF(get(), out)
+			after()
+			o = append([]byte{}, o...)
+		})
+		e := c.ev("compute")
+		e["kind"], e["input"], e["n"], e["nb"] = kind, vt.Hex(in), nInt(out), vt.ID4(out)
+		e["ok"], e["out"], e["out2"], e["panic"] = err == nil && !p, vt.Hex(o), "=", p
+		if p {
+			e["panicVal"] = fmt.Sprint(pv)
+		}
+		c.w.Emit(e)
+	}
+	one("enclosed-prefix", rec[:n], func() []byte { return bufs.InPrefix("in", rec, n) }, bufs.Check)
+	one("enclosed-whole", rec, func() []byte { return bufs.Again("in", len(rec)) }, bufs.ScribbleAll)
 }
 
 // sweep calls ComputePRF(in, n) for every n = 0..max and logs all outputs in one event.
@@ -230,7 +254,7 @@ func hkdfLens(h string, r *rand.Rand, full bool) []uint32 {
 	return o
 }
 
-func runPRF(w *vt.Writer, full bool) {
+func runPRF(w *dpk.Writer, full bool) {
 	r := vt.Rng(15)
 	seed := int(vt.Seed())
 	type plan struct {
@@ -381,6 +405,15 @@ func runPRF(w *vt.Writer, full bool) {
 			}
 			c.compute("walk", content(r, l, wi+ci), uint32(n))
 		}
+		// buf[:n] of a larger record, then a longer prefix of the same, untouched buffer
+		for wi, nk := range [][2]int{{0, 1}, {5, 11}, {16, 17}, {33, 31}, {64, 1}} {
+			for _, out := range []int{1, 16, mx} {
+				if out > mx || out > 64 && wi%2 == 1 {
+					continue
+				}
+				c.enclosed(content(r, nk[0]+nk[1], wi+ci), nk[0], uint32(out))
+			}
+		}
 	}
 }
 
@@ -388,7 +421,7 @@ func runPRF(w *vt.Writer, full bool) {
 
 var setIDs = []uint32{0, 1, 2, 0x7fffffff, 0x80000000, 0xffffffff, 0x01020304, 0xfffffffe, 100, 101, 102}
 
-func runSets(w *vt.Writer, full bool) {
+func runSets(w *dpk.Writer, full bool) {
 	r := vt.Rng(150)
 	count := 60
 	if full {
@@ -469,7 +502,7 @@ func runSets(w *vt.Writer, full bool) {
 }
 
 // exerciseSet builds prf.NewPRFSet(h) for the keyset ks describes and records the set and computations through it.
-func exerciseSet(w *vt.Writer, r *rand.Rand, route string, ks []ksEntry, h *keyset.Handle, t int) {
+func exerciseSet(w *dpk.Writer, r *rand.Rand, route string, ks []ksEntry, h *keyset.Handle, t int) {
 	var err error
 	var s *prf.Set
 	p, pv := vt.Try(func() { s, err = prf.NewPRFSet(h) })
@@ -577,7 +610,7 @@ func readShapes(path string) []shape {
 
 // planSets instantiates EVERY keyset shape TLC enumerated (status x key-type class x primary position, up to
 // MaxKeys keys) with real PRF keys and distinct ids (extreme values included) and exercises the resulting set.
-func planSets(w *vt.Writer, path string) {
+func planSets(w *dpk.Writer, path string) {
 	r := vt.Rng(152)
 	for si, sh := range readShapes(path) {
 		perm := r.Perm(len(setIDs))
@@ -653,7 +686,7 @@ func describeSet(h *keyset.Handle) []ksEntry {
 
 // templateSets: keysets the library generates itself (keyset.Manager.Add of the PRF key templates, random keys and
 // ids), grown and edited through the manager (SetPrimary, Disable, Delete).
-func templateSets(w *vt.Writer, r *rand.Rand, full bool) {
+func templateSets(w *dpk.Writer, r *rand.Rand, full bool) {
 	ts := []*tinkpb.KeyTemplate{prf.HMACSHA256PRFKeyTemplate(), prf.HMACSHA512PRFKeyTemplate(), prf.HKDFSHA256PRFKeyTemplate(), prf.AESCMACPRFKeyTemplate()}
 	count := 12
 	if full {
@@ -693,7 +726,7 @@ func templateSets(w *vt.Writer, r *rand.Rand, full bool) {
 
 // ---- subtle.ComputeHKDF ---------------------------------------------------------------------
 
-func hkdfCall(w *vt.Writer, kind, h string, key, salt, info []byte, saltNil, infoNil bool, n uint32) {
+func hkdfCall(w *dpk.Writer, kind, h string, key, salt, info []byte, saltNil, infoNil bool, n uint32) {
 	var o1, o2 []byte
 	var e1, e2 error
 	s, i := salt, info
@@ -719,7 +752,7 @@ func hkdfCall(w *vt.Writer, kind, h string, key, salt, info []byte, saltNil, inf
 	w.Emit(e)
 }
 
-func runHKDF(w *vt.Writer, full bool) {
+func runHKDF(w *dpk.Writer, full bool) {
 	r := vt.Rng(151)
 	for _, h := range hashes {
 		d := digest[h]
@@ -768,7 +801,7 @@ func runHKDF(w *vt.Writer, full bool) {
 	wycheproofHKDF(w)
 }
 
-func wycheproofHKDF(w *vt.Writer) {
+func wycheproofHKDF(w *dpk.Writer) {
 	m, _ := filepath.Glob("/root/go/pkg/mod/github.com/c2sp/wycheproof@*/testvectors_v1")
 	if len(m) == 0 {
 		return
@@ -801,7 +834,7 @@ func wycheproofHKDF(w *vt.Writer) {
 
 // ---- replay ---------------------------------------------------------------------------------
 
-func replay(path string, w *vt.Writer) {
+func replay(path string, w *dpk.Writer) {
 	raw, err := os.ReadFile(path)
 	if err != nil {
 		vt.Fatal("read replay: %v", err)
@@ -907,7 +940,7 @@ func main() {
 	if *out == "" {
 		vt.Fatal("usage: c15 -out trace.ndjson [-replay file]")
 	}
-	w := vt.NewWriter(*out)
+	w := dpk.NewWriter(*out, bufs)
 	defer w.Close()
 	if *rp != "" {
 		replay(*rp, w)
